@@ -80,7 +80,7 @@ __CPROVER_assigns(g_pool_frees)
 __CPROVER_ensures(g_pool_frees == __CPROVER_old(g_pool_frees) + 1)
 ;
 '''
-GUARD = {('guarded_by', 'eventx_ThreadPool_Data'): {'all_threads_stop_flag': 'B->lock.held == 1', 'idle_thread_num': 'B->lock.held == 1'}}
+GUARD = {('guarded_by', 'eventx_ThreadPool_Data'): {'all_threads_stop_flag': 'B->lock.held == 1', 'idle_thread_num': 'B->lock.held == 1', 'doing_tasks_token': 'B->lock.held == 1', 'undo_tasks_token': 'B->lock.held == 1', 'undo_tasks_cabinet': 'B->lock.held == 1', 'threads_cabinet': 'B->lock.held == 1', 'undo_task_peak_num_': 'B->lock.held == 1', 'task_pool': 'B->lock.held == 1'}}
 TP_FRESH = '__CPROVER_requires(__CPROVER_is_fresh(self, sizeof(*self)) && __CPROVER_is_fresh(self->d_, sizeof(Data)))\n'
 def LEVELS_FRESH(): return ''.join('__CPROVER_requires(LV(self->d_, %d).size < V_QMAX && __CPROVER_is_fresh(LV(self->d_, %d).data, (LV(self->d_, %d).size ? LV(self->d_, %d).size : 1) * sizeof(Token)))\n' % (i, i, i, i) for i in range(5))
 OTHERS_SAME = lambda cond: ' && '.join('((%s) || LV(self->d_, %d).size == __CPROVER_old(LV(self->d_, %d).size))' % (cond % i, i, i) for i in range(5))
